@@ -74,6 +74,11 @@ def path_patterns(tier='quick', alpha='a'):
         g = ('ext', k, ((L('.'), L(alpha)), (L('x'),)))
         neg = ('ext', '!', ((L('b'),),))
         pats += [(g, ('sep',), neg), (g, L('x'), ('sep',), neg), (g, ('sep',), neg, ('sep',), L(alpha)), (g, ('sep',), ('star',)), (g, ('sep',), ('ext', '@', ((('star',),),)))]
+    # a negated group closed directly by a separator written as an escaped slash: the separator stays outside the group's look-ahead
+    negb = ('ext', '!', ((L(alpha),),))
+    pats += [(negb, esep, L('b')), (L('x'), negb, esep, L('b')), (('gs',), esep, negb, esep, L('b')), (negb, esep, ('star',)), (negb, esep, negb)]
+    # a literal `+` (or a `+(...)` group) as the last thing of a pattern: a trailing separator on the path is tolerated as after any other text
+    pats += [mkpath([(L(alpha),), (L('c'), L('+'), L('+'))]), mkpath([(('gs',),), (L('n'), L('+'))]), mkpath([(L(alpha),), (('ext', '+', ((L('b'),),)),)]), ((L('c'), L('+')))]
     # `/` inside brackets and groups: only generated where the statement is definite (none here)
     return list(dict.fromkeys(pats))
 
